@@ -1,8 +1,17 @@
 #!/bin/bash
-# runs every registered check once in the thorough tier and keeps a copy of each evidence file under evidence-thorough/
+# Runs every registered check once in the thorough tier and keeps a copy of each evidence file
+# under evidence-thorough/ (the quick-tier evidence file is put back afterwards).
+# .build/repo.lock         = somebody has a temporary patch applied to /repo: do not start a build
+# .build/thorough.building = this runner is in a build phase: do not patch /repo now
 cd "$(dirname "$0")/.."
 mkdir -p evidence-thorough
-for id in ${@:-C13 C16 C18 C19 C07 C20 C12 C03 C08 C02 C04 C05 C06 C09 C10 C11 C14 C15 C17 C01}; do
+for id in ${@:-C16 C18 C19 C07 C20 C12 C03 C08 C02 C04 C05 C06 C09 C10 C11 C13 C14 C15 C17 C01}; do
+  while true; do
+    touch .build/thorough.building
+    if [ -e .build/repo.lock ]; then rm -f .build/thorough.building; sleep 5; continue; fi
+    break
+  done
+  ( sleep 150; rm -f .build/thorough.building ) &
   s=$(date +%s)
   cp evidence/$id.json .build/quick-$id.json 2>/dev/null
   ./check $id --tier thorough > .build/thorough-$id.log 2>&1
@@ -12,3 +21,4 @@ for id in ${@:-C13 C16 C18 C19 C07 C20 C12 C03 C08 C02 C04 C05 C06 C09 C10 C11 C
   cp .build/quick-$id.json evidence/$id.json 2>/dev/null
   echo "$id rc=$rc wall=$((e-s))s $(grep -c '^VIOLATION' .build/thorough-$id.log) violations, $(grep -c '^KNOWN-FINDING' .build/thorough-$id.log) known | $(tail -1 .build/thorough-$id.log | cut -c1-120)"
 done
+rm -f .build/thorough.building
